@@ -193,6 +193,7 @@ func c04One(drv *core.Driver, prefix, ds []jr.Dir, conform bool) (string, string
 }
 
 func c04Run(e *core.Env) {
+	e.ReserveTail()
 	drv := e.Driver()
 	prefix := []jr.Dir{jr.O(d0, "Expenses:Food")}
 	run := func(alpha []jr.Dir, maxL int, tag string, conformEvery int64) {
@@ -251,6 +252,7 @@ func c04Run(e *core.Env) {
 		run(c04Alphabet(true), 2, "full", 23)
 		run(c04Alphabet(false), 4, "core", 4001)
 	}
+	e.BeginTail()
 	if e.Take() {
 		// the verdict when the directives are spread over three files, under every loader
 		// schedule: an accepted journal (the assertions in b.knut depend on a.knut) and the
@@ -284,7 +286,7 @@ func init() {
 	core.Register(&core.Check{
 		ID: "C04", Level: "model_checking", Run: c04Run, Replay: c04Replay,
 		Added:       "bookings of 0.5 and assertions -0.5 / 0.50; accruals whose per-period share is zero; accepted and rejected journal spread over three files under every loader schedule",
-		QuickBudget: 80 * time.Second, ThoroughBudget: 14 * time.Minute,
+		QuickBudget: 160 * time.Second, ThoroughBudget: 14 * time.Minute,
 		Rule: "every sequence (all file orders) of <= L lifecycle operations (open, close, booking +1/-1/0, one- and two-line assertions) over {asset, liability} x {CHF, USD} x 2 dates; " +
 			"each sequence prefix is a state of the operation tree; check, print and balance are run on each; non-trivial = at least two operations",
 		Assumptions: []string{"assertions on equity/income/expense accounts are outside the statement and not generated",
